@@ -7,6 +7,7 @@ from fractions import Fraction
 
 from ..interp import cval, has_const
 from ..source import norm_text
+from .common import def_map, expand
 from .geo import uniq_events
 
 TTV = 'gemdat.volume.trajectory_to_volume'
@@ -130,13 +131,19 @@ def check(ctx):
         shape = base.shape or []
         # find the np.zeros call to read the shape expressions
         zc = None
+        shape_node = None
+        defs = def_map(fi.node)
         for n in ast.walk(fi.node):
-            if isinstance(n, ast.Call) and norm_text(n.func).split('.')[-1] in ('zeros', 'empty', 'full') and n.args and isinstance(n.args[0], ast.Tuple):
-                zc = n
-        if zc is None or len(zc.args[0].elts) != 3:
+            if isinstance(n, ast.Call) and norm_text(n.func).split('.')[-1] in ('zeros', 'empty', 'full') and n.args:
+                cand = n.args[0]
+                if isinstance(cand, ast.Name) and cand.id in defs:
+                    cand = defs[cand.id]
+                if isinstance(cand, ast.Tuple):
+                    zc, shape_node = n, cand
+        if zc is None or len(shape_node.elts) != 3:
             ctx.ob('R2', fi, 'array extent', None, 'shape of the count array is not a literal 3-tuple')
         else:
-            for k, se in enumerate(zc.args[0].elts):
+            for k, se in enumerate(shape_node.elts):
                 lin = linear(se)
                 nsym = extents.get(k)
                 if lin is None or nsym is None or nsym[0] != 'v':
